@@ -76,6 +76,12 @@ def parseTimingCase : Sx → Option TimingCase
     let c ← parseTimingCase (.list [.atom "listen-timing", idle, stop, initial, max, conns])
     let h ← asNat h
     pure { c with horizon := some h }
+  -- environment options that do not change the model's prediction: a stale entry at the socket path, a second
+  -- listener on another address sharing the stop flag
+  | .list [.atom "listen-timing", idle, stop, initial, max, conns, .list [.atom "stale"]] =>
+    parseTimingCase (.list [.atom "listen-timing", idle, stop, initial, max, conns])
+  | .list [.atom "listen-timing", idle, stop, initial, max, conns, .list [.atom "twin"]] =>
+    parseTimingCase (.list [.atom "listen-timing", idle, stop, initial, max, conns])
   | .list [.atom "listen-timing", idle, stop, initial, max, .list (.atom "conns" :: cs)] => do
     let idle ← asNat idle
     let stopAt := asNat stop
@@ -167,7 +173,11 @@ def timingLine (c : TimingCase) : Sx :=
 def listenLine (line : String) : String :=
   match parse line with
   | none => "(model-parse-error)"
-  | some (.list [.atom "listen-activated", _]) =>
+  | some (.list [.atom "listen-activated", .atom "0", _]) =>
+    -- no idle timeout and no stop flag: the service stays (C15_runs_forever_by_default), whatever flags the
+    -- inherited socket carries
+    render (.list [.atom "aobs", .atom "t", .atom "f", .atom "t"])
+  | some (.list (.atom "listen-activated" :: _)) =>
     -- the service is reached through the inherited socket, leaves through its idle timeout, and
     -- `Listener::drop` does not unlink a path it did not create (C15_unlink)
     render (.list [.atom "aobs", .atom "t", .atom "t", ofBool (!unlinksOnDrop (.unixPath false))])
@@ -216,6 +226,11 @@ def parseTimingObs : Sx → Option TimingObs
   | .list (.atom "tobs" :: .atom res :: ret :: removed :: conns) => do
     let ret ← asNat ret
     let removed ← asOptBool removed
+    let flagKept := !(conns.any fun k => match k with | Sx.list [Sx.atom "flag", Sx.atom "f"] => true | _ => false)
+    let twin := conns.findSome? fun k => match k with
+      | Sx.list [Sx.atom "twin", Sx.atom r, t] => (asNat t).map fun t => (r, t)
+      | _ => none
+    let conns := conns.filter fun k => match k with | Sx.list (Sx.atom "c" :: _) => true | _ => false
     let conns ← conns.mapM fun k => match k with
       | Sx.list [Sx.atom "c", a, f, cpl, e] => do
         let a ← asNat a
@@ -224,7 +239,7 @@ def parseTimingObs : Sx → Option TimingObs
         let e ← asNat e
         pure ({ accepted := a, gotFirst := f.getD false, complete := cpl.getD false, closed := e } : TimingConn)
       | _ => none
-    pure { result := res, ret, removed := removed.getD false, conns }
+    pure { result := res, ret, removed := removed.getD false, conns, flagKept, twin }
   | _ => none
 
 def timingTolerance : Nat := 350
@@ -270,7 +285,13 @@ def listenPred (prop : String) (caseLine obsLine : String) : String :=
           | _ => some "unparsable-observation"
         | none =>
           match cs, os with
-          | .list [.atom "listen-activated", _], .list [.atom "aobs", served, exited, exists_] =>
+          | .list [.atom "listen-activated", .atom "0", _], .list [.atom "aobs", served, exited, exists_] =>
+            let isT : Sx → Bool := fun x => match x with | .atom "t" => true | _ => false
+            if isT exited then some "activated-service-without-idle-timeout-or-stop-flag-returned"
+            else if !isT served then some "activated-service-did-not-serve-the-inherited-socket"
+            else if !isT exists_ then some "socket-path-not-created-by-the-service-was-removed"
+            else none
+          | .list (.atom "listen-activated" :: _), .list [.atom "aobs", served, exited, exists_] =>
             let isT : Sx → Bool := fun x => match x with | .atom "t" => true | _ => false
             if !isT served then some "activated-service-did-not-serve-the-inherited-socket"
             else if !isT exited then some "activated-service-did-not-leave-through-its-idle-timeout"
